@@ -18,6 +18,7 @@ BASIC=[{'kind':k,'pattern':p} for k in ('CREATE','DELETE','MODIFY','ALLOW','DISA
 def M(pattern,in_src=None,with_='Products',in_dst=None,from_='t'): return {'kind':'MATCH','pattern':pattern,'in_src':in_src,'with':with_,'in_dst':in_dst,'from':from_}
 MATCHES=[M('*'),M('a'),M('b',in_src='d'),M('*',in_src='d'),M('*',in_src='d/'),M('b',in_dst='e'),M('b',in_dst='e/'),M('*',in_src='d',in_dst='e'),
          M('*',with_='Materials'),M('b',in_src='d',with_='Materials',in_dst='e'),M('*',from_='zz'),M('[',in_src='d'),M('d/*'),M('?',in_src='d',in_dst='d')]
+PAIRS=[[M('a',with_='Materials'),M('b',with_='Products')],[M('b',with_='Products'),M('a',with_='Materials')],[M('*',in_src='d',with_='Products'),M('a',with_='Materials')],[M('a'),M('*',in_src='d',in_dst='e')],[M('*',from_='zz'),M('*')]]
 TAILS=[[{'kind':'DISALLOW','pattern':'*'}],[{'kind':'REQUIRE','pattern':'a'}],[{'kind':'REQUIRE','pattern':'d/b'}],[]]
 
 class Rules(Obligation):
@@ -27,7 +28,7 @@ class Rules(Obligation):
         self.group=group; self.seq=seq; self.item=item; self.algs=algs; self.seed=seed; self.rate=rate; self.known=set(known)
         self.name='C03.rules_'+group+('_seq%d'%seq if seq>1 else '')+('_insp' if item!='step' else '')
         self.bounds={'path_universe':U_SRC,'referenced_step_universe':U_DST,'item':item,
-                     'rule_list':('%d rule(s) from the %s catalog (%d entries)'%(seq,group,len(BASIC) if group=='basic' else len(MATCHES)))+' followed by one of: DISALLOW *, REQUIRE a, REQUIRE d/b, nothing; applied to materials or to products',
+                     'rule_list':('%d rule(s) from the %s catalog (%d entries)'%(seq,group,len(BASIC) if group=='basic' else len(MATCHES)) if group!='pairs' else 'a pair of MATCH rules from the pair catalog (%d entries: same FROM step with different WITH kinds / prefixes)'%len(PAIRS))+' followed by one of: DISALLOW *, REQUIRE a, REQUIRE d/b, nothing; applied to materials or to products',
                      'artifacts':'per path: absent / material only / product only / both, one free digest byte each (equal or different)' if group=='basic' else 'per path present/absent on the rule side; referenced step: per path present/absent with a free digest byte',
                      'hash_map_iteration':'insertion order (the rule engine iterates BTree collections only; HashMap is used for lookup by name)','normalisation':'all paths already normal (no ./ .. //); non-normal paths are C14\'s'}
         self.witnesses=['accept','reject']; self.seen=set()
@@ -42,7 +43,8 @@ class Rules(Obligation):
         b=self.b
         side=['materials','products'][run.pick(2,'side')]
         cat=BASIC if self.group=='basic' else MATCHES
-        rules=[cat[run.pick(len(cat),'rule%d'%i)] for i in range(self.seq)]
+        if self.group=='pairs': rules=list(PAIRS[run.pick(len(PAIRS),'pair')])
+        else: rules=[cat[run.pick(len(cat),'rule%d'%i)] for i in range(self.seq)]
         rules=rules+TAILS[run.pick(len(TAILS),'tail')]
         mats={}; prods={}
         if self.group=='basic':
@@ -52,15 +54,17 @@ class Rules(Obligation):
                 if st in (2,3): prods[p]=self.desc(z3.BitVec('p_'+p,8),'sha512' if (self.algs and st==3 and run.pick(2,'alg_'+p)) else 'sha256')
         else:
             own=mats if side=='materials' else prods
-            for p in U_SRC:
+            for p in (U_SRC if self.group!='pairs' else ['a','b','d/b']):
                 if run.pick(2,'state_'+p): own[p]=self.desc(z3.BitVec('s_'+p,8))
         links={'it':{'materials':mats,'products':prods}}
-        if self.group=='match':
+        if self.group in ('match','pairs'):
             tm={}; tp={}
             for p in U_DST:
-                if run.pick(2,'t_'+p):
-                    for r in rules:
-                        pass
+                if self.group=='pairs':
+                    st=run.pick(4,'t_'+p) if p in ('a','b') else (1 if p=='e/b' and run.pick(2,'t_'+p) else 0)
+                    if st in (1,3): tp[p]=self.desc(z3.BitVec('tp_'+p,8))
+                    if st in (2,3): tm[p]=self.desc(z3.BitVec('tm_'+p,8))
+                elif run.pick(2,'t_'+p):
                     (tp if any(r.get('with')=='Products' for r in rules if r['kind']=='MATCH') else tm)[p]=self.desc(z3.BitVec('t_'+p,8))
             links['t']={'materials':tm,'products':tp}
         def mk_art(d):
